@@ -1,11 +1,15 @@
 #!/bin/bash
-# usage: tools/trymut.sh <patch.diff> <prop> [<prop>...]   — applies the patch to /repo, runs the quick checks, reverts
+# usage: tools/trymut.sh <patch.diff> <prop> [<prop>...]
+# applies the patch to a scratch clone of /repo (never /repo itself), runs the quick checks against it, reverts
 set -u
 patch=$1; shift
-git -C /repo apply "$patch" || { echo "patch does not apply"; exit 2; }
+M=/tmp/repo_mut
+[ -d $M/.git ] || git clone -q /repo $M
+git -C $M fetch -q origin && git -C $M checkout -q --detach origin/HEAD 2>/dev/null || git -C $M checkout -q --detach $(git -C /repo rev-parse HEAD)
+git -C $M checkout -q -- . 
+git -C $M apply "$patch" || { echo "patch does not apply"; exit 2; }
 for p in "$@"; do
-  out=$(cd /verif && timeout 1500 ./check $p quick 2>&1 | grep -E "^(OK|VIOLATION|KNOWN)" | cut -c1-220)
+  out=$(cd /verif && VERIF_REPO=$M timeout 1800 ./check $p quick 2>&1 | grep -E "^(OK|VIOLATION)" | cut -c1-200)
   echo "[$p] $out"
 done
-git -C /repo checkout -- .
-git -C /repo status --short | head -3
+git -C $M checkout -q -- .
